@@ -61,6 +61,8 @@ structure WFState : Prop where
   wR : s.w.R = K
   wC : s.w.C = if assort then 1 else K
   wT : s.w.T = nv.nL
+  uSized : s.u.Sized
+  vSized : nv.directed = true → s.v.Sized
   uNonneg : Tens.AllNonneg s.u
   vNonneg : Tens.AllNonneg s.v
   wNonneg : Tens.AllNonneg s.w
@@ -82,7 +84,7 @@ theorem stepU_wf (hwf : ViewWF nv s.u.R) (h : WFState assort K nv s) : WFState a
     rw [updVEntry_eq_spec assort K nv.nL s.u.R _ _ _ _ _ _ hwf.1]
     exact specVEntry_nonneg assort K nv.nL s.u.R _ _ _ _ _ _ (fun i k => h.uNonneg i k 0)
       (fun j q => fixed_nonneg assort K nv s h j q 0) (fun k q a => wView_nonneg assort false s.w h.wNonneg k q a) i k
-  refine ⟨rfl, rfl, h.vShape, h.wR, h.wC, h.wT, hnn, h.vNonneg, h.wNonneg, ?_, h.vZero⟩
+  refine ⟨rfl, rfl, h.vShape, h.wR, h.wC, h.wT, ofFn_sized _ _ _ _, h.vSized, hnn, h.vNonneg, h.wNonneg, ?_, h.vZero⟩
   intro i k hi hk hni
   have hi' : i < s.u.R := hi
   rw [stepU_entry assort K nv s hwf hi' hk, other_rows_untouched assort K nv.nL s.u.R _ _ _ _ _ _ i k hni]
@@ -106,8 +108,11 @@ theorem stepV_wf (hwf : ViewWF nv s.u.R) (h : WFState assort K nv s) : WFState a
     have hvR' : (stepV assort K nv s).v.R = s.v.R := by unfold stepV updateVertices; simp [hd]
     have hvC' : (stepV assort K nv s).v.C = K := by unfold stepV updateVertices; simp [hd]
     have hvT' : (stepV assort K nv s).v.T = 1 := by unfold stepV updateVertices; simp [hd]
+    have hvS : (stepV assort K nv s).v.Sized := by
+      unfold stepV updateVertices; simp only [hd, ↓reduceIte]; exact ofFn_sized _ _ _ _
     refine ⟨by rw [hu]; exact h.uC, by rw [hu]; exact h.uT, fun _ => ⟨by rw [hvR', hu]; exact hvR, hvC', hvT'⟩,
       by rw [hw]; exact h.wR, by rw [hw]; exact h.wC, by rw [hw]; exact h.wT,
+      by rw [hu]; exact h.uSized, fun _ => hvS,
       by rw [hu]; exact h.uNonneg, hnn, by rw [hw]; exact h.wNonneg, by rw [hu]; exact h.uZero, ?_⟩
     intro _ j q hj hq hnj
     rw [hu] at hj
@@ -133,7 +138,7 @@ theorem stepW_wf (hwf : ViewWF nv s.u.R) (h : WFState assort K nv s) : WFState a
       rw [updWEntry_eq_spec assort K s.u.R _ _ _ _ _ _ hwf.1]
       exact specWEntry_nonneg assort K s.u.R _ _ _ _ _ _ (fun i k => h.uNonneg i k 0)
         (fun j q => fixed_nonneg assort K nv s h j q 0) (fun k q a => wView_nonneg assort false s.w h.wNonneg k q a) k q a
-  refine ⟨h.uC, h.uT, h.vShape, ?_, ?_, ?_, h.uNonneg, h.vNonneg, hnn, h.uZero, h.vZero⟩
+  refine ⟨h.uC, h.uT, h.vShape, ?_, ?_, ?_, h.uSized, h.vSized, h.uNonneg, h.vNonneg, hnn, h.uZero, h.vZero⟩
   · unfold stepW updateAffinity; simp only; split <;> rfl
   · unfold stepW updateAffinity; simp only; split <;> simp_all
   · unfold stepW updateAffinity; simp only; split <;> rfl
